@@ -2,7 +2,8 @@
 //! `gix_validate::path::component` (E1: bounded-exhaustive components x option combinations).
 //!
 //! Oracles:
-//!  * `git -c core.protectNTFS=.. -c core.protectHFS=.. update-index --add --cacheinfo <mode> <oid> <path>` (one process per case),
+//!  * the git binary: `git -c core.protectNTFS=.. -c core.protectHFS=.. update-index -z --stdin` (batch, see `git_table`) and
+//!    `update-index --add --cacheinfo <mode> <oid> <path>` (single paths),
 //!  * a line-by-line transcription of git 2.39's `verify_path` / `verify_dotfile` / `is_ntfs_dotgit` /
 //!    `is_ntfs_dot_generic` / `is_hfs_dot_generic` / `pick_one_utf8_char` (module `gitc`), which is itself compared with
 //!    the git binary on every case of the `git` sub-check and then used alone on a much larger space,
@@ -622,8 +623,9 @@ fn judge(c: &Case, git_refuses: bool) -> Verdict {
         let gix = gix_refuses(c, pw);
         match (git_refuses, &gix) {
             (true, None) => {
+                let class = if has_relative_component(&c.path()) { "accepted-relative" } else { "accepted" };
                 return bad(
-                    "accepted",
+                    class,
                     format!(
                         "git refuses {:?} (symlink={}, protectNTFS={}, protectHFS={}) but gix_validate::path::component accepts every component with protect_windows={pw}",
                         c.path().as_bstr(),
@@ -650,95 +652,159 @@ fn judge(c: &Case, git_refuses: bool) -> Verdict {
     }
 }
 
+/// Ask git about many paths with few processes. `update-index -z --stdin` calls `verify_path(path, st_mode)` for every path
+/// and prints `Ignoring path <path>` for the refused ones, continuing with the next:
+///  * file mode: `--force-remove` (mode 0, nothing is looked up in the work tree; accepted paths are removed from an empty index),
+///  * symlink mode: `--add` with a work tree in which every asked path exists as a symbolic link (lstat gives S_IFLNK).
+/// Paths with `.`/`..` components are normalised by update-index before verify_path sees them; those are asked one at a time
+/// through `--cacheinfo`.
+struct GitTable {
+    /// refused[symlink][ntfs][hfs]
+    refused: [[[HashSet<Vec<u8>>; 2]; 2]; 2],
+    processes: u64,
+}
+
+fn has_relative_component(path: &[u8]) -> bool {
+    path.split(|b| *b == b'/').any(|c| c == b"." || c == b".." || c.is_empty())
+}
+
+fn git_single(repo: &std::path::Path, n: u64, path: &[u8], symlink: bool, ntfs: bool, hfs: bool) -> bool {
+    use std::os::unix::ffi::OsStrExt;
+    let idx = repo.join(format!("idx.{n}"));
+    let mut cmd = vkit::git::cmd(repo);
+    cmd.env("GIT_INDEX_FILE", &idx)
+        .arg("-c")
+        .arg(format!("core.protectNTFS={ntfs}"))
+        .arg("-c")
+        .arg(format!("core.protectHFS={hfs}"))
+        .args(["update-index", "--add", "--cacheinfo", if symlink { "120000" } else { "100644" }, "e69de29bb2d1d6434b8b29ae775ad8c2e48c5391"])
+        .arg(std::ffi::OsStr::from_bytes(path));
+    let out = vkit::git::run_cmd(cmd, None);
+    let _ = std::fs::remove_file(&idx);
+    if out.ok {
+        false
+    } else if out.err_text().contains("Invalid path") {
+        true
+    } else {
+        vkit::machinery!("git update-index --cacheinfo failed unexpectedly for {:?}: {}", path.as_bstr(), out.err_text());
+    }
+}
+
+fn git_table(base: &std::path::Path, file_paths: &[Vec<u8>], link_paths: &[Vec<u8>]) -> GitTable {
+    use std::os::unix::ffi::OsStrExt;
+    let mut table = GitTable { refused: Default::default(), processes: 0 };
+    // work tree with symlinks
+    let wt = base.join("wt");
+    std::fs::create_dir_all(&wt).unwrap_or_else(|e| vkit::machinery!("mkdir: {e}"));
+    let mut made_dirs = HashSet::new();
+    for p in link_paths.iter().filter(|p| !has_relative_component(p)) {
+        let full = wt.join(std::ffi::OsStr::from_bytes(p));
+        if let Some(parent) = full.parent() {
+            if made_dirs.insert(parent.to_owned()) {
+                std::fs::create_dir_all(parent).unwrap_or_else(|e| vkit::machinery!("mkdir {parent:?}: {e}"));
+            }
+        }
+        std::os::unix::fs::symlink("t", &full).unwrap_or_else(|e| vkit::machinery!("symlink {full:?}: {e}"));
+    }
+    let batch = |symlink: bool, ntfs: bool, hfs: bool| -> (HashSet<Vec<u8>>, u64) {
+        let paths = if symlink { link_paths } else { file_paths };
+        let mut refused = HashSet::new();
+        let mut procs = 0;
+        let repo = base.join(format!("repo.{}{}{}", symlink as u8, ntfs as u8, hfs as u8));
+        vkit::git::init(&repo);
+        let mut stdin = Vec::new();
+        let mut singles = Vec::new();
+        for p in paths {
+            if has_relative_component(p) {
+                singles.push(p);
+            } else {
+                stdin.extend_from_slice(p);
+                stdin.push(0);
+            }
+        }
+        if !stdin.is_empty() {
+            let mut cmd = vkit::git::cmd(if symlink { &wt } else { &repo });
+            cmd.env("GIT_DIR", repo.join(".git"));
+            if symlink {
+                cmd.env("GIT_WORK_TREE", &wt);
+            }
+            cmd.arg("-c").arg(format!("core.protectNTFS={ntfs}")).arg("-c").arg(format!("core.protectHFS={hfs}")).arg("update-index");
+            cmd.arg(if symlink { "--add" } else { "--force-remove" }).args(["-z", "--stdin"]);
+            let out = vkit::git::run_cmd(cmd, Some(&stdin));
+            procs += 1;
+            if !out.ok {
+                vkit::machinery!("git update-index --stdin batch failed (symlink={symlink}): {}", String::from_utf8_lossy(&out.stderr[out.stderr.len().saturating_sub(400)..]));
+            }
+            for line in out.stderr.split(|b| *b == b'\n') {
+                if let Some(p) = line.strip_prefix(b"Ignoring path ") {
+                    refused.insert(p.to_vec());
+                } else if !line.is_empty() {
+                    vkit::machinery!("unexpected stderr line from git update-index: {:?}", line.as_bstr());
+                }
+            }
+        }
+        for (n, p) in singles.into_iter().enumerate() {
+            procs += 1;
+            if git_single(&repo, n as u64, p, symlink, ntfs, hfs) {
+                refused.insert(p.clone());
+            }
+        }
+        (refused, procs)
+    };
+    let results: Vec<((bool, bool, bool), (HashSet<Vec<u8>>, u64))> = std::thread::scope(|s| {
+        let mut hs = Vec::new();
+        for symlink in [false, true] {
+            for ntfs in [false, true] {
+                for hfs in [false, true] {
+                    let batch = &batch;
+                    hs.push((
+                        (symlink, ntfs, hfs),
+                        s.spawn(move || vkit::catch(|| batch(symlink, ntfs, hfs))),
+                    ));
+                }
+            }
+        }
+        hs.into_iter()
+            .map(|(k, h)| match h.join() {
+                Ok(Ok(v)) => (k, v),
+                Ok(Err(m)) => vkit::machinery!("git batch panicked: {m}"),
+                Err(p) => std::panic::resume_unwind(p),
+            })
+            .collect()
+    });
+    for ((symlink, ntfs, hfs), (set, procs)) in results {
+        table.refused[symlink as usize][ntfs as usize][hfs as usize] = set;
+        table.processes += procs;
+    }
+    table
+}
+
+fn with_positions(comp: &[u8], positions: &[u8], out: &mut Vec<(Vec<u8>, u8)>) {
+    for &pos in positions {
+        out.push((comp.to_vec(), pos));
+    }
+}
+
 pub fn run(run: &'static Run) {
     run.rule(
         "components = stems {.git, git~1 (all 8 case masks), .gitmodules (all-lower/upper, 1- and (thorough) 2-letter case flips), gitmod~N, gi7eba~N, \
-         fall-back 8.3 names gi7eb~10 .. ~1000000, near misses .gi/.gitx/git~2/gitmod~5/gi7ebb~1/.gitattributes/...} x suffix strings (<=2 quick / <=3 thorough) over \
+         fall-back 8.3 names gi7eb~10 .. ~1000000, near misses .gi/.gitx/git~2/gitmod~5/gi7ebb~1/.gitattributes/./../...} x suffix strings (<=2 quick / <=3 thorough) over \
          {' ', '.', ':', 'x', '\\', ':stream', '::$INDEX_ALLOCATION'}; backslash-led variants; every one of the 16 HFS-ignorable code points, 12 near-miss code points \
          and 8 malformed UTF-8 sequences inserted at every position of .git/.GIT/.gitmodules/... (1 insertion; 2 insertions for .git and .gitmodules); \
-         x position {leaf, d/leaf, as directory} x mode {file, symlink} x protectNTFS x protectHFS x protect_windows; \
-         sub-check model: ALL strings of <=4 (quick) / <=5 (thorough) tokens over a 17-token alphabet and all 1024 case masks of .gitmodules, judged by the transcription; \
+         plus ALL strings of <=3 (quick) / <=4 (thorough) tokens over a 17-token alphabet {., .git, .GIT, git, modules, MODULES, gitmod, gi7eba, ~, 1, 5, 0, ' ', ':', x, U+200C, 0xFF}; \
+         x position {leaf, d/leaf, as directory (short components)} x mode {file, symlink (components of the .gitmodules family + controls)} x protectNTFS x protectHFS x protect_windows, \
+         every case answered by the git binary; \
+         sub-check model: token strings one longer and all 1024 case masks of .gitmodules, judged by the transcription alone; \
          sub-check windows: device names x extensions/spaces/streams judged by the transcription of is_valid_win32_path; \
          non-trivial = git (or the transcription) refuses the path, i.e. the implication's premise holds",
     );
-    run.assume("git 2.39.5 `update-index --add --cacheinfo` is the oracle for what git refuses; the transcription in c40::gitc is compared with it on every case of sub-check `git` (a mismatch is a machinery error) and trusted on the larger `model` space");
+    run.assume("git 2.39.5 is the oracle for what git refuses: `update-index -z --stdin` (`Ignoring path` = verify_path said no; --force-remove for file mode, --add over real symlinks for symlink mode) and `update-index --add --cacheinfo` for paths with ./.. components and for a cross-check sample; the transcription in c40::gitc is compared with git on every case of sub-check `git` (a mismatch is a machinery error) and trusted alone only in sub-check `model`");
     run.assume("components containing '\\' are only asserted with protect_windows=true: gix-validate documents (tests `starts_with_dot_git_with_backslashes_on_linux`, `backslashes_on_unix`) that without it a backslash is an ordinary byte, while git on Linux still inspects what follows a backslash under protectNTFS");
     run.assume("the symlink mode is passed for the leaf component only (a symlink `.gitmodules/f` cannot exist), so position `as directory` uses file mode");
     run.assume("sub-check `windows`: git's Windows-only is_valid_win32_path is transcribed from compat/mingw.c and cannot be cross-checked against a Windows git here");
     run.budget_secs(run.pick(36.0, 560.0));
     let quick = run.quick();
 
-    // ---------------- git binary ----------------
-    let repo = vkit::scratch::Dir::new("c40repo");
-    vkit::git::init(repo.path());
-    let oid = "e69de29bb2d1d6434b8b29ae775ad8c2e48c5391";
-    let counter = AtomicU64::new(0);
-    let git_refused = AtomicU64::new(0);
-    let hfs_only = AtomicU64::new(0);
-    let ntfs_only = AtomicU64::new(0);
-    let comps = if run.is_replay() { Vec::new() } else { git_components(quick) };
-    run.cov("git_components", comps.len());
-    run.sub_with(
-        "git",
-        vkit::Opts::default().chunk(2048),
-        |emit| {
-            for comp in &comps {
-                // all three positions for short components, leaf only for the long tail
-                let short = comp.len() <= 6 || (comp.len() <= 13 && comp.to_ascii_lowercase().starts_with(b".gitmodules"));
-                let positions: &[u8] = if short { &[0, 1, 2] } else { &[0] };
-                emit_configs(comp, positions, emit);
-            }
-        },
-        |c: &Case| -> Verdict {
-            use std::os::unix::ffi::OsStrExt;
-            let n = counter.fetch_add(1, Ordering::Relaxed);
-            let idx = repo.path().join(format!("idx.{n}"));
-            let mut cmd = vkit::git::cmd(repo.path());
-            cmd.env("GIT_INDEX_FILE", &idx)
-                .arg("-c")
-                .arg(format!("core.protectNTFS={}", c.ntfs))
-                .arg("-c")
-                .arg(format!("core.protectHFS={}", c.hfs))
-                .args(["update-index", "--add", "--cacheinfo", if c.symlink { "120000" } else { "100644" }, oid])
-                .arg(std::ffi::OsStr::from_bytes(&c.path()));
-            let out = vkit::git::run_cmd(cmd, None);
-            let _ = std::fs::remove_file(&idx);
-            let refuses = if out.ok {
-                false
-            } else if out.err_text().contains("Invalid path") {
-                true
-            } else {
-                vkit::machinery!("git update-index failed unexpectedly for {:?}: {}", c.path().as_bstr(), out.err_text());
-            };
-            let model = !gitc::verify_path(&c.path(), c.symlink, c.ntfs, c.hfs);
-            if model != refuses {
-                vkit::machinery!(
-                    "transcription disagrees with git for {:?} symlink={} ntfs={} hfs={}: git refuses={refuses}, transcription refuses={model}",
-                    c.path().as_bstr(),
-                    c.symlink,
-                    c.ntfs,
-                    c.hfs
-                );
-            }
-            if refuses {
-                git_refused.fetch_add(1, Ordering::Relaxed);
-                // refused only because of one protection (the same path is fine with it off)
-                if c.hfs && gitc::verify_path(&c.path(), c.symlink, c.ntfs, false) {
-                    hfs_only.fetch_add(1, Ordering::Relaxed);
-                }
-                if c.ntfs && gitc::verify_path(&c.path(), c.symlink, false, c.hfs) {
-                    ntfs_only.fetch_add(1, Ordering::Relaxed);
-                }
-            }
-            judge(c, refuses)
-        },
-    );
-    run.cov_add("oracle_calls_git", run.sub_evaluations("git"));
-    run.require("git refused some paths", git_refused.load(Ordering::Relaxed) > 0);
-    run.require("some paths are refused only because of protectHFS", hfs_only.load(Ordering::Relaxed) > 0);
-    run.require("some paths are refused only because of protectNTFS", ntfs_only.load(Ordering::Relaxed) > 0);
-
-    // ---------------- transcription on the big space ----------------
     let tokens: Vec<Vec<u8>> = vec![
         b".".to_vec(),
         b".git".to_vec(),
@@ -758,13 +824,124 @@ pub fn run(run: &'static Run) {
         utf8(0x200c),
         b"\xff".to_vec(),
     ];
+    let toks: Vec<&[u8]> = tokens.iter().map(|t| &t[..]).collect();
+    let git_token_len = if quick { 3 } else { 4 };
+
+    // ---------------- git binary ----------------
+    // (component, position) pairs; the config axes are added by emit_configs
+    let mut asked: Vec<(Vec<u8>, u8)> = Vec::new();
+    let replay_case = run.replay_case::<Case>("git");
+    if let Some(c) = &replay_case {
+        asked.push((c.comp.to_vec(), c.pos));
+    } else if !run.is_replay() {
+        let mut seen = HashSet::new();
+        for comp in git_components(quick) {
+            seen.insert(comp.clone());
+            // all three positions for short components, leaf only for the long tail
+            let short = comp.len() <= 6 || (comp.len() <= 13 && comp.to_ascii_lowercase().starts_with(b".gitmodules"));
+            with_positions(&comp, if short { &[0, 1, 2] } else { &[0] }, &mut asked);
+        }
+        enumerate::strings(&toks, 1, git_token_len, |s| {
+            if seen.insert(s.to_vec()) {
+                asked.push((s.to_vec(), 0));
+            }
+        });
+    }
+    let mut cases: Vec<Case> = Vec::new();
+    if let Some(c) = &replay_case {
+        cases.push(c.clone());
+    } else {
+        for (comp, pos) in &asked {
+            emit_configs(comp, &[*pos], &mut |c| cases.push(c));
+        }
+    }
+    let mut file_paths = Vec::new();
+    let mut link_paths = Vec::new();
+    {
+        let (mut sf, mut sl) = (HashSet::new(), HashSet::new());
+        for c in &cases {
+            let p = c.path();
+            if c.symlink {
+                if sl.insert(p.clone()) {
+                    link_paths.push(p);
+                }
+            } else if sf.insert(p.clone()) {
+                file_paths.push(p);
+            }
+        }
+    }
+    drop(asked);
+    let base = vkit::scratch::Dir::new("c40git");
+    let t0 = std::time::Instant::now();
+    let table = git_table(base.path(), &file_paths, &link_paths);
+    run.cov("git_table_secs", t0.elapsed().as_secs_f64());
+    run.cov("git_paths_file_mode", file_paths.len());
+    run.cov("git_paths_symlink_mode", link_paths.len());
+    run.cov("git_processes", table.processes);
+    let single_repo = base.join("single");
+    vkit::git::init(&single_repo);
+    let counter = AtomicU64::new(0);
+    let git_refused = AtomicU64::new(0);
+    let hfs_only = AtomicU64::new(0);
+    let ntfs_only = AtomicU64::new(0);
+    let cross_checked = AtomicU64::new(0);
+    run.sub(
+        "git",
+        |emit| {
+            for c in cases {
+                emit(c);
+            }
+        },
+        |c: &Case| -> Verdict {
+            let path = c.path();
+            let refuses = table.refused[c.symlink as usize][c.ntfs as usize][c.hfs as usize].contains(&path);
+            // cross-check the batch oracle with the --cacheinfo oracle on a deterministic sample (every case whose hash is 0 mod 2048)
+            if vkit::hash_of(c) % 2048 == 0 && !has_relative_component(&path) {
+                let n = counter.fetch_add(1, Ordering::Relaxed);
+                let single = git_single(&single_repo, n, &path, c.symlink, c.ntfs, c.hfs);
+                if single != refuses {
+                    vkit::machinery!("git oracles disagree for {:?}: --stdin says refuses={refuses}, --cacheinfo says {single}", path.as_bstr());
+                }
+                cross_checked.fetch_add(1, Ordering::Relaxed);
+            }
+            let model = !gitc::verify_path(&path, c.symlink, c.ntfs, c.hfs);
+            if model != refuses {
+                vkit::machinery!(
+                    "transcription disagrees with git for {:?} symlink={} ntfs={} hfs={}: git refuses={refuses}, transcription refuses={model}",
+                    path.as_bstr(),
+                    c.symlink,
+                    c.ntfs,
+                    c.hfs
+                );
+            }
+            if refuses {
+                git_refused.fetch_add(1, Ordering::Relaxed);
+                // refused only because of one protection (the same path is fine with it off)
+                if c.hfs && gitc::verify_path(&path, c.symlink, c.ntfs, false) {
+                    hfs_only.fetch_add(1, Ordering::Relaxed);
+                }
+                if c.ntfs && gitc::verify_path(&path, c.symlink, false, c.hfs) {
+                    ntfs_only.fetch_add(1, Ordering::Relaxed);
+                }
+            }
+            judge(c, refuses)
+        },
+    );
+    run.cov_add("oracle_calls_git", run.sub_evaluations("git"));
+    run.cov("git_cacheinfo_cross_checks", cross_checked.load(Ordering::Relaxed));
+    run.require("git refused some paths", git_refused.load(Ordering::Relaxed) > 0);
+    run.require("some paths are refused only because of protectHFS", hfs_only.load(Ordering::Relaxed) > 0);
+    run.require("some paths are refused only because of protectNTFS", ntfs_only.load(Ordering::Relaxed) > 0);
+    run.require("the two git oracles were cross-checked", cross_checked.load(Ordering::Relaxed) > 0);
+
+    // ---------------- transcription on the big space ----------------
     let model_refused = AtomicU64::new(0);
     run.sub(
         "model",
         |emit| {
-            let toks: Vec<&[u8]> = tokens.iter().map(|t| &t[..]).collect();
             let mut seen = HashSet::new();
-            enumerate::strings(&toks, 1, if quick { 4 } else { 5 }, |s| {
+            // token strings one longer than what git was asked (shorter ones were answered by git itself)
+            enumerate::strings(&toks, git_token_len + 1, git_token_len + 1, |s| {
                 if seen.insert(vkit::hash_of(s)) {
                     for symlink in [false, true] {
                         for ntfs in [false, true] {
